@@ -7,7 +7,9 @@ import (
 	"math/rand/v2"
 	"os"
 	"path/filepath"
+	"runtime/debug"
 	"strings"
+	"sync"
 	"time"
 
 	"verif/harness/lib"
@@ -164,7 +166,28 @@ func (rg *rig) writeCase(up *uploadPath, id string, rng *rand.Rand) {
 	log := func(f string, a ...any) { det.History = append(det.History, fmt.Sprintf(f, a...)) }
 	rg.noteCase("write/" + up.name)
 
-	if err := up.do(ctx, rg, o); err != nil {
+	var err error
+	if rg.maxQueue <= 0 {
+		// Uploads are switched off: the handle given to the proxy must be
+		// closed right away.
+		withoutGC(func() {
+			if err = up.do(ctx, rg, o); err != nil {
+				return
+			}
+			open := openWithin(rg.front.Dir, o.hash, 0, 300*time.Millisecond)
+			r.Eval()
+			if len(open) > 0 {
+				r.Violation(rg.key(up.name, "uploads-disabled", "blob-file-left-open"),
+					fmt.Sprintf("%s: uploads are disabled (max_queued_uploads 0), yet the blob file handed to the proxy stays open after the upload was acknowledged: %s", rg.name, open[0]),
+					map[string]any{"case": det, "open": open})
+			} else {
+				r.Count("fd.dropped-upload-closed.uploads-disabled")
+			}
+		})
+	} else {
+		err = up.do(ctx, rg, o)
+	}
+	if err != nil {
 		// not accepted: nothing to demand (judged by C01/C11/C16)
 		r.Count("write." + rg.name + "/" + up.name + ".rejected")
 		log("upload rejected: %v", err)
@@ -192,8 +215,6 @@ func (rg *rig) writeCase(up *uploadPath, id string, rng *rand.Rand) {
 	}
 
 	if rg.maxQueue <= 0 {
-		// uploads are switched off: nothing may arrive, nothing may leak
-		rg.expectNoFD(o, up.name, "uploads-disabled", det)
 		r.Count("write." + rg.name + ".dropped(queue-disabled)")
 		return
 	}
@@ -251,6 +272,35 @@ func (rg *rig) writeCase(up *uploadPath, id string, rng *rand.Rand) {
 	rg.checkPanics(up.name, "write-through", det)
 }
 
+// An *os.File that is dropped without Close is closed by its finalizer at
+// the next garbage collection, which would hide "handle not closed" from
+// /proc/self/fd. Observations of that kind are made inside a short window in
+// which the collector is switched off (one rig at a time).
+var gcWindow sync.Mutex
+
+func withoutGC(f func()) {
+	gcWindow.Lock()
+	old := debug.SetGCPercent(-1)
+	defer func() {
+		debug.SetGCPercent(old)
+		gcWindow.Unlock()
+	}()
+	f()
+}
+
+// openWithin polls (briefly: the window keeps the collector off) until at
+// most max cache files matching `contains` are open.
+func openWithin(dir, contains string, max int, wait time.Duration) []string {
+	deadline := time.Now().Add(wait)
+	for {
+		open := cacheFDs([]string{dir}, contains)
+		if len(open) <= max || time.Now().After(deadline) {
+			return open
+		}
+		time.Sleep(2 * time.Millisecond)
+	}
+}
+
 type onceCheck struct {
 	rg   *rig
 	hash string
@@ -277,32 +327,6 @@ func (w *world) checkOnce() {
 		}
 	}
 	w.pendingOnce = nil
-}
-
-// expectNoFD: the blob file of the entry must not be open in this process.
-func (rg *rig) expectNoFD(o *object, path, why string, det any) {
-	dirs := []string{rg.front.Dir}
-	deadline := time.Now().Add(20 * time.Second)
-	var open []string
-	sleep := time.Millisecond
-	for {
-		open = cacheFDs(dirs, o.hash)
-		if len(open) == 0 || time.Now().After(deadline) {
-			break
-		}
-		time.Sleep(sleep)
-		if sleep < 200*time.Millisecond {
-			sleep *= 2
-		}
-	}
-	rg.w.r.Eval()
-	if len(open) > 0 {
-		rg.w.r.Violation(rg.key(path, why, "blob-file-left-open"),
-			fmt.Sprintf("%s: the file handle of an upload that will never be sent (%s) is still open: %s", rg.name, why, open[0]),
-			map[string]any{"case": det, "open": open})
-	} else {
-		rg.w.r.Count("fd.dropped-upload-closed." + why)
-	}
 }
 
 // uploadFaultCase: the backend fails the upload; nothing may leak and the
@@ -381,49 +405,47 @@ func (rg *rig) fullQueueCase(id string, rng *rand.Rand) {
 	ctx, cancel := context.WithTimeout(context.Background(), 120*time.Second)
 	defer cancel()
 	rg.noteCase("write/full-queue")
-	n := rg.numUp + rg.maxQueue + 6
-	if n > 40 {
-		n = rg.numUp + rg.maxQueue + 3
-	}
 	stall := &upPlan{label: "stall", act: "stall"}
 	var objs []*object
 	paths := []*uploadPath{uploadPaths[0], uploadPaths[2], uploadPaths[4]}
-	for i := 0; i < n; i++ {
+	upload := func(i int) {
 		up := paths[i%len(paths)]
 		o := rg.newUploadObject(rng, up, fmt.Sprintf("%s-%d", id, i))
 		rg.be.setUploadPlan(o.hash, stall)
 		if err := up.do(ctx, rg, o); err != nil {
 			r.Violation(rg.key(up.name, "full-queue", "upload-rejected"),
 				fmt.Sprintf("%s: local upload %d through %s failed while the backend stalls uploads: %v", rg.name, i, up.name, err), map[string]any{"case": id})
-			continue
+			return
 		}
 		objs = append(objs, o)
 	}
-	r.Eval()
-	r.Distinct(rg.name, "full-queue", rg.maxQueue, rg.numUp)
-	// Uploaders are parked in the backend, the queue is full: the last
-	// uploads were dropped. Their files must be closed.
+	// Fill: every uploader parked in the backend, the queue full.
+	fill := rg.numUp + rg.maxQueue + 1
+	for i := 0; i < fill; i++ {
+		upload(i)
+	}
 	st := rg.be.stalls()
 	st.waitTotal(func(k int) bool { return k >= rg.numUp }, 10*time.Second)
-	parked := st.totalWaiting()
-	r.Count(fmt.Sprintf("full-queue.%s.parked-uploads=%d", rg.name, parked))
-	holdable := rg.numUp + rg.maxQueue // in flight + queued
-	deadline := time.Now().Add(20 * time.Second)
-	var open []string
-	for {
-		open = cacheFDs([]string{rg.front.Dir}, "")
-		if len(open) <= holdable || time.Now().After(deadline) {
-			break
+	r.Count(fmt.Sprintf("full-queue.%s.parked-uploads=%d", rg.name, st.totalWaiting()))
+	r.Eval()
+	r.Distinct(rg.name, "full-queue", rg.maxQueue, rg.numUp)
+	// Further uploads are dropped; their files must be closed by the time
+	// they are acknowledged. At most (uploaders + queue length) handles can
+	// legitimately be open.
+	holdable := rg.numUp + rg.maxQueue
+	withoutGC(func() {
+		for i := 0; i < 8; i++ {
+			upload(fill + i)
 		}
-		time.Sleep(5 * time.Millisecond)
-	}
-	if len(open) > holdable {
-		r.Violation(rg.key("full-queue", "dropped-uploads", "blob-file-left-open"),
-			fmt.Sprintf("%s: %d blob files are open although at most %d uploads can be in flight or queued (%d uploaders, max_queued_uploads %d): dropped uploads keep their file handle",
-				rg.name, len(open), holdable, rg.numUp, rg.maxQueue), map[string]any{"case": id, "open": clipList(open)})
-	} else {
-		r.Count("fd.full-queue-within-bound")
-	}
+		open := openWithin(rg.front.Dir, "", holdable, 300*time.Millisecond)
+		if len(open) > holdable {
+			r.Violation(rg.key("full-queue", "dropped-uploads", "blob-file-left-open"),
+				fmt.Sprintf("%s: %d blob files are open although at most %d uploads can be in flight or queued (%d uploaders, max_queued_uploads %d): dropped uploads keep their file handle",
+					rg.name, len(open), holdable, rg.numUp, rg.maxQueue), map[string]any{"case": id, "open": clipList(open)})
+		} else {
+			r.Count("fd.full-queue-within-bound")
+		}
+	})
 	// local behaviour stays correct
 	for _, o := range objs {
 		lop, lout := rg.localRead(ctx, rg.front, o, rng)
@@ -436,18 +458,15 @@ func (rg *rig) fullQueueCase(id string, rng *rand.Rand) {
 	for _, o := range objs {
 		rg.be.clearPlan(o.hash)
 	}
-	for i := 0; i < 200 && st.totalWaiting() > 0; i++ {
-		st.releaseAll()
-		time.Sleep(5 * time.Millisecond)
-	}
-	deadline = time.Now().Add(30 * time.Second)
+	var open []string
+	deadline := time.Now().Add(30 * time.Second)
 	for {
+		st.releaseAll()
 		open = cacheFDs([]string{rg.front.Dir}, "")
-		if len(open) == 0 || time.Now().After(deadline) {
+		if (len(open) == 0 && st.totalWaiting() == 0) || time.Now().After(deadline) {
 			break
 		}
-		st.releaseAll()
-		time.Sleep(10 * time.Millisecond)
+		time.Sleep(5 * time.Millisecond)
 	}
 	r.Eval()
 	if len(open) > 0 {
@@ -473,7 +492,7 @@ func (rg *rig) runWriteCases(nWrites, nFaults, nQueue int, half int) {
 		}
 		rg.uploadFaultCase(up, pl, fmt.Sprintf("%s-h%d-f%d", rg.name, half, i), rng)
 	}
-	for i := 0; i < nQueue && rg.maxQueue > 0 && (rg.family == "http" || rg.family == "grpc"); i++ {
+	for i := 0; i < nQueue && rg.maxQueue > 0 && rg.maxQueue <= 8 && (rg.family == "http" || rg.family == "grpc"); i++ {
 		rg.fullQueueCase(fmt.Sprintf("%s-h%d-fq%d", rg.name, half, i), rng)
 	}
 }
